@@ -197,7 +197,17 @@ func ParseTermString(s string) (Val, error) {
 const canonNaN = 0x7ff8000000000001
 
 // ReadNode reads a node into a Val through the public Node interface only.
+// ReadNode reads a node into a Val.  A node nested deeper than any tree the checks build (a node that has come to
+// contain itself through a defect, say) is an error, not a stack overflow.
 func ReadNode(n datamodel.Node) (Val, error) {
+	budget := 300000
+	return readNodeAt(n, 0, &budget)
+}
+
+func readNodeAt(n datamodel.Node, depth int, budget *int) (Val, error) {
+	if *budget--; depth > 5000 || *budget < 0 {
+		return Val{}, fmt.Errorf("node nested deeper than 5000 levels or of more than 300000 nodes (cyclic?)")
+	}
 	if n == nil {
 		return Val{}, fmt.Errorf("nil node")
 	}
@@ -265,7 +275,7 @@ func ReadNode(n datamodel.Node) (Val, error) {
 			if err != nil {
 				return Val{}, err
 			}
-			xv, err := ReadNode(x)
+			xv, err := readNodeAt(x, depth+1, budget)
 			if err != nil {
 				return Val{}, err
 			}
@@ -284,7 +294,7 @@ func ReadNode(n datamodel.Node) (Val, error) {
 			if err != nil {
 				return Val{}, err
 			}
-			xv, err := ReadNode(x)
+			xv, err := readNodeAt(x, depth+1, budget)
 			if err != nil {
 				return Val{}, err
 			}
